@@ -64,7 +64,7 @@ Check venc_bad_point_rejected :
   W_verify W p Q pk label <> Val tt.
 Print Assumptions venc_bad_point_rejected.
 
-(** RECOVERABILITY: an accepted proof decrypts to the discrete log of Q, unless in EVERY slot the side left unopened by the challenge fails to decrypt / decode / match (the prover fixed the complement of all >= 128 challenge bits in advance). Holds for adversarial proofs: garbage ciphertexts are skipped (F8 repaired), short encodings decode (F2 repaired). *)
+(** RECOVERABILITY: an accepted proof decrypts to the discrete log of Q, unless in EVERY slot the side left unopened by the challenge fails to decrypt / decode / match (the prover fixed the complement of all >= 128 challenge bits in advance). Holds for adversarial proofs: garbage ciphertexts are skipped (F8 repaired), short encodings decode (F2 repaired). The premise vproof_wf is the struct invariant that both constructors establish (C09 venc_from_bytes_wf); the statement without it is false: after pushing an extra element onto the pub field `proofs`, verify = Ok and decrypt = Err(VerificationFailed). *)
 Theorem venc_accept_recover :
   forall W : venc_world, world_ok W ->
   forall (p : vproof) (Q : w_G W) (pk : w_PK W) (sk : w_SK W) (label : list N),
@@ -196,7 +196,7 @@ Check venc_ctx_key :
     W_enc_label W (w_repr W o) label pk' seed = W_enc_label W (w_repr W o) label pk seed.
 Print Assumptions venc_ctx_key.
 
-(** Byte alteration, opened scalars: replacing the opened scalar of any slot of an honest proof by any other canonical scalar is rejected unconditionally (non-canonical bytes are refused by from_bytes). *)
+(** Byte alteration of a serialised honest proof is characterised per wire field by the next three theorems (the intended single statement `altered byte, x <> 0 -> from_bytes or verify fails` is not a theorem for an arbitrary hash; header bytes -- sizes -- are covered by the correspondence runs only). Opened scalars: replacing the opened scalar of any slot of an honest proof by any other canonical scalar is rejected unconditionally (non-canonical bytes are refused by from_bytes). *)
 Theorem venc_alter_open_rejected :
   forall W : venc_world, world_ok W ->
   forall (x : Z) (pk : w_PK W) (label : list N) (sp : option nat) (seed : list N) (tape : nat -> Z)
